@@ -9,7 +9,7 @@ _ENC = 'pyvc encoding of the Python subset (DESIGN 2.3) and the solvers are trus
 
 TEXTS = {
     'C01': dict(category='other', engine='pyvc+bounded', technique=_PYVC + '; ' + _BOUNDED,
-                text='Proved for all inputs (family printers, ~1300 obligations; every list / tuple / set value, class, length, limit, depth and trailing comment - the documents the builders return are named by uninterpreted functions): pretty_bracketable_iterable hands exactly the first min(len, N) items, in iteration order, to pretty_python_value under a context one level deeper that keeps max_seq_len (take_n proved to have length min(len, N) and to be the identity for N >= len); the truncation notice exists iff len > N and is formatted from len - N; at depth_left == 0 the placeholder is returned and no element is printed; a one-element tuple keeps its dangling comma unless a trailing comment takes its place; an instance of a subclass is the call general_identifier(class)(literal), also when empty and at the depth cut. pretty_float prints +inf / -inf / nan as the calls float("inf") / float("-inf") / float("nan") and every other float as float.__repr__; pretty_int, pretty_bool, pretty_none, pretty_ellipsis, pretty_frozenset (the call around the list of ALL items) likewise. The text these documents denote, the dict and string printers and the round trip as a whole are decided by the bounded stand-in: Bounded: eval(pformat(v)) is type-exactly equal to v for all value trees of <= 3 nodes (quick; <= 4 thorough) over an '
+                text='Proved for all inputs (family printers, ~2200 obligations; every list / tuple / set value, class, length, limit, depth and trailing comment - the documents the builders return are named by uninterpreted functions): pretty_bracketable_iterable hands exactly the first min(len, N) items, in iteration order, to pretty_python_value under a context one level deeper that keeps max_seq_len (take_n proved to have length min(len, N) and to be the identity for N >= len); the truncation notice exists iff len > N and is formatted from len - N; at depth_left == 0 the placeholder is returned and no element is printed; a one-element tuple keeps its dangling comma unless a trailing comment takes its place; an instance of a subclass is the call general_identifier(class)(literal), also when empty and at the depth cut. pretty_dict (ghost log of the printer calls, two loop invariants): exactly the first min(len, N) keys - in dict order, or in sorted order under sort_dict_keys - are looked up and printed, every key and value under a context one level deeper that keeps max_seq_len (also the second rendering of a commented value; a str key at the level of the dict), the closing notice iff len > N with len - N, the placeholder (class kept, nothing printed) at depth_left == 0. pretty_float prints +inf / -inf / nan as the calls float("inf") / float("-inf") / float("nan") and every other float as float.__repr__; pretty_int, pretty_bool, pretty_none, pretty_ellipsis, pretty_frozenset (the call around the list of ALL items) likewise. The text these documents denote, the dict and string printers and the round trip as a whole are decided by the bounded stand-in: Bounded: eval(pformat(v)) is type-exactly equal to v for all value trees of <= 3 nodes (quick; <= 4 thorough) over an '
                      'adversarial leaf alphabet x a grid of (width, ribbon, indent) x sort_dict_keys, plus deep nestings and seeded random trees. '
                      'The printers are not yet under proved contracts, so nothing is claimed beyond the bound.',
                 note='CPython eval/ast as oracle; domain bounds are written to the evidence.'),
@@ -69,7 +69,7 @@ TEXTS = {
                      'nesting contexts x 8 (95 thorough) configurations: no failure warning, eval reconstructs an equal object. Two known findings.',
                 note='CPython eval as oracle.'),
     'C08': dict(category='other', engine='pyvc+bounded', technique=_PYVC + '; ' + _BOUNDED,
-                text='Proved for all inputs (family printers, ~1300 obligations; every list / tuple / set value, class, length, limit, depth and trailing comment - the documents the builders return are named by uninterpreted functions): pretty_bracketable_iterable hands exactly the first min(len, N) items, in iteration order, to pretty_python_value under a context one level deeper that keeps max_seq_len (take_n proved to have length min(len, N) and to be the identity for N >= len); the truncation notice exists iff len > N and is formatted from len - N; at depth_left == 0 the placeholder is returned and no element is printed; a one-element tuple keeps its dangling comma unless a trailing comment takes its place; an instance of a subclass is the call general_identifier(class)(literal), also when empty and at the depth cut. The same for pretty_float / pretty_int / pretty_bool (wrapper iff type(value) is not the base type) and pretty_frozenset; general_identifier names a class by exactly its own __module__ and __qualname__ (builtins and __main__ unqualified). dict / str / bytes subclasses and the evaluation of the text are decided by the bounded stand-in: Bounded-exhaustive over 48 subclasses of the nine bases (plain, __repr__/__str__ overrides, enum style, qualified/nested) x '
+                text='Proved for all inputs (family printers, ~2200 obligations; every list / tuple / set value, class, length, limit, depth and trailing comment - the documents the builders return are named by uninterpreted functions): pretty_bracketable_iterable hands exactly the first min(len, N) items, in iteration order, to pretty_python_value under a context one level deeper that keeps max_seq_len (take_n proved to have length min(len, N) and to be the identity for N >= len); the truncation notice exists iff len > N and is formatted from len - N; at depth_left == 0 the placeholder is returned and no element is printed; a one-element tuple keeps its dangling comma unless a trailing comment takes its place; an instance of a subclass is the call general_identifier(class)(literal), also when empty and at the depth cut. pretty_dict (ghost log of the printer calls, two loop invariants): exactly the first min(len, N) keys - in dict order, or in sorted order under sort_dict_keys - are looked up and printed, every key and value under a context one level deeper that keeps max_seq_len (also the second rendering of a commented value; a str key at the level of the dict), the closing notice iff len > N with len - N, the placeholder (class kept, nothing printed) at depth_left == 0. The same for pretty_float / pretty_int / pretty_bool (wrapper iff type(value) is not the base type) and pretty_frozenset; general_identifier names a class by exactly its own __module__ and __qualname__ (builtins and __main__ unqualified). dict / str / bytes subclasses and the evaluation of the text are decided by the bounded stand-in: Bounded-exhaustive over 48 subclasses of the nine bases (plain, __repr__/__str__ overrides, enum style, qualified/nested) x '
                      'base values x 7 contexts x widths: type(eval(out)) is the subclass and the base value is equal.',
                 note='CPython eval as oracle.'),
     'C09': dict(category='other', engine='bounded', technique=_BOUNDED,
@@ -77,11 +77,11 @@ TEXTS = {
                      'sites x all texts over a 10-character alphabet up to length 3 (4): same AST as uncommented, no fallback, words preserved in order.',
                 note='CPython ast/tokenize as oracle.'),
     'C10': dict(category='other', engine='pyvc+bounded', technique=_PYVC + '; ' + _BOUNDED,
-                text='Proved for all inputs (family printers, ~1300 obligations; every list / tuple / set value, class, length, limit, depth and trailing comment - the documents the builders return are named by uninterpreted functions): pretty_bracketable_iterable hands exactly the first min(len, N) items, in iteration order, to pretty_python_value under a context one level deeper that keeps max_seq_len (take_n proved to have length min(len, N) and to be the identity for N >= len); the truncation notice exists iff len > N and is formatted from len - N; at depth_left == 0 the placeholder is returned and no element is printed; a one-element tuple keeps its dangling comma unless a trailing comment takes its place; an instance of a subclass is the call general_identifier(class)(literal), also when empty and at the depth cut. pretty_frozenset hands the whole item list to the list printer. Dicts and the evaluation of the text are decided by the bounded stand-in. Proved for all inputs (family context, 53 obligations): PrettyContext.__init__, _replace for EVERY subset of fields (symbolic keyword map), nested_call (depth_left - 1, inf stays inf, everything else unchanged), use_multiline_strategy, assoc; python_to_sdocs builds the initial context from exactly the given indent / depth (None = unlimited) / max_seq_len / sort_dict_keys and a new visited set. The truncation logic of the printers is bounded only. Bounded: 3777 (9503) container values up to three levels x N in 1..7 and None x 3 widths: eval equals the reference '
+                text='Proved for all inputs (family printers, ~2200 obligations; every list / tuple / set value, class, length, limit, depth and trailing comment - the documents the builders return are named by uninterpreted functions): pretty_bracketable_iterable hands exactly the first min(len, N) items, in iteration order, to pretty_python_value under a context one level deeper that keeps max_seq_len (take_n proved to have length min(len, N) and to be the identity for N >= len); the truncation notice exists iff len > N and is formatted from len - N; at depth_left == 0 the placeholder is returned and no element is printed; a one-element tuple keeps its dangling comma unless a trailing comment takes its place; an instance of a subclass is the call general_identifier(class)(literal), also when empty and at the depth cut. pretty_dict (ghost log of the printer calls, two loop invariants): exactly the first min(len, N) keys - in dict order, or in sorted order under sort_dict_keys - are looked up and printed, every key and value under a context one level deeper that keeps max_seq_len (also the second rendering of a commented value; a str key at the level of the dict), the closing notice iff len > N with len - N, the placeholder (class kept, nothing printed) at depth_left == 0. pretty_frozenset hands the whole item list to the list printer. Dicts and the evaluation of the text are decided by the bounded stand-in. Proved for all inputs (family context, 53 obligations): PrettyContext.__init__, _replace for EVERY subset of fields (symbolic keyword map), nested_call (depth_left - 1, inf stays inf, everything else unchanged), use_multiline_strategy, assoc; python_to_sdocs builds the initial context from exactly the given indent / depth (None = unlimited) / max_seq_len / sort_dict_keys and a new visited set. The truncation logic of the printers is bounded only. Bounded: 3777 (9503) container values up to three levels x N in 1..7 and None x 3 widths: eval equals the reference '
                      'truncation, exactly one exact notice per over-long container, None equals a huge limit.',
                 note='CPython eval/tokenize as oracle.'),
     'C11': dict(category='other', engine='pyvc+bounded', technique=_PYVC + '; ' + _BOUNDED,
-                text='Proved for all inputs (family printers, ~1300 obligations; every list / tuple / set value, class, length, limit, depth and trailing comment - the documents the builders return are named by uninterpreted functions): pretty_bracketable_iterable hands exactly the first min(len, N) items, in iteration order, to pretty_python_value under a context one level deeper that keeps max_seq_len (take_n proved to have length min(len, N) and to be the identity for N >= len); the truncation notice exists iff len > N and is formatted from len - N; at depth_left == 0 the placeholder is returned and no element is printed; a one-element tuple keeps its dangling comma unless a trailing comment takes its place; an instance of a subclass is the call general_identifier(class)(literal), also when empty and at the depth cut. pretty_call_alt: the placeholder name(...) at depth_left <= 0, a hugged sole list / dict / tuple argument printed under the SAME context (consumes no level), every other argument one level deeper; pretty_float / pretty_int placeholders. Proved for all inputs (family context, 53 obligations): PrettyContext.__init__, _replace for EVERY subset of fields (symbolic keyword map), nested_call (depth_left - 1, inf stays inf, everything else unchanged), use_multiline_strategy, assoc; python_to_sdocs builds the initial context from exactly the given indent / depth (None = unlimited) / max_seq_len / sort_dict_keys and a new visited set. The depth tests of the printers are bounded only. Bounded: 15k (116k) container trees with unique leaves, height <= 4 (5), d in 0..height+2 and None: leaf visibility, '
+                text='Proved for all inputs (family printers, ~2200 obligations; every list / tuple / set value, class, length, limit, depth and trailing comment - the documents the builders return are named by uninterpreted functions): pretty_bracketable_iterable hands exactly the first min(len, N) items, in iteration order, to pretty_python_value under a context one level deeper that keeps max_seq_len (take_n proved to have length min(len, N) and to be the identity for N >= len); the truncation notice exists iff len > N and is formatted from len - N; at depth_left == 0 the placeholder is returned and no element is printed; a one-element tuple keeps its dangling comma unless a trailing comment takes its place; an instance of a subclass is the call general_identifier(class)(literal), also when empty and at the depth cut. pretty_dict (ghost log of the printer calls, two loop invariants): exactly the first min(len, N) keys - in dict order, or in sorted order under sort_dict_keys - are looked up and printed, every key and value under a context one level deeper that keeps max_seq_len (also the second rendering of a commented value; a str key at the level of the dict), the closing notice iff len > N with len - N, the placeholder (class kept, nothing printed) at depth_left == 0. pretty_call_alt: the placeholder name(...) at depth_left <= 0, a hugged sole list / dict / tuple argument printed under the SAME context (consumes no level), every other argument one level deeper; pretty_float / pretty_int placeholders. Proved for all inputs (family context, 53 obligations): PrettyContext.__init__, _replace for EVERY subset of fields (symbolic keyword map), nested_call (depth_left - 1, inf stays inf, everything else unchanged), use_multiline_strategy, assoc; python_to_sdocs builds the initial context from exactly the given indent / depth (None = unlimited) / max_seq_len / sort_dict_keys and a new visited set. The depth tests of the printers are bounded only. Bounded: 15k (116k) container trees with unique leaves, height <= 4 (5), d in 0..height+2 and None: leaf visibility, '
                      'placeholder shapes, identity above the cut and beyond the height. Two known findings (atoms below the cut, str key at the cut).',
                 note='CPython ast as oracle.'),
     'C12': dict(category='other', engine='pyvc+bounded', technique=_PYVC + ' for termination measures; ' + _BOUNDED + ' for the growth law',
